@@ -293,3 +293,10 @@ PROPS["C07"] = {
     "thorough": [{"variant": "explanations", "cases": 120000, "params": {"case_timeout": 120}, "timeout": 3400}],
     "floors": {"any": {"proofs": 3000, "proof_nodes": 15000, "steps_congruence": 300, "steps_transitivity": 3000, "leaves_explicit": 3000, "leaves_by_rule": 60}},
 }
+
+
+# ---- Miri lanes (thorough tier): the same workers interpreted by Miri (undefined behaviour / data races in the dependency code reached)
+PROPS["C19"]["thorough"].append({"variant": "miri", "cases": 16, "params": {"mode": "random"}, "shards": 16, "timeout": 2400})
+PROPS["C17"]["thorough"].append({"variant": "miri", "cases": 16, "params": {"len": 60}, "shards": 16, "timeout": 2400})
+PROPS["C08"]["thorough"].append({"variant": "miri", "cases": 48, "params": {"mode": "hist"}, "shards": 16, "timeout": 2400})
+PROPS["C20"]["thorough"].append({"variant": "miri", "cases": 16, "params": {"processes": 0}, "shards": 16, "timeout": 2400})
